@@ -162,7 +162,9 @@ int main ()
     JR back = j / k; back *= rk; O.put (JR(back - j)); };
   // the four basis matrices requested in a given order (the first request of a process may be any of them): each is the
   // matrix of its own index.  Output: entry-wise differences from sigma_0..sigma_3
-  OP("o.c15.pauliorder") { for (int t=0;t<4;t++) { unsigned i=A.nat(); Jones<double> m = Pauli::matrix(i); Jones<Rat> r (m);
+  OP("o.c15.pauliorder") { std::string b = A.next(); BasisRestore r0;     // the basis in force while the (possibly first) requests are made: lin | cir | ell
+    if (b == "cir") Pauli::basis().set_basis (Signal::Circular); else if (b == "ell") Pauli::basis().set_basis (0.4, -0.3); else if (b != "lin") throw ProtocolError ("basis");
+    for (int t=0;t<4;t++) { unsigned i=A.nat(); Jones<double> m = Pauli::matrix(i); Jones<Rat> r (m);
       CRat z (0), one (1), mone (-1), I (Rat(0), Rat(1)), mI (Rat(0), Rat(-1));
       JR e = (i == 0) ? JR (one, z, z, one) : (i == 1) ? JR (one, z, z, mone) : (i == 2) ? JR (z, one, one, z) : JR (z, mI, I, z);
       O.put (JR(r - e)); } };
